@@ -41,6 +41,10 @@ CFG = dict(
         "protocol bodies are tied to the schema theorems through the call sequence their real encode/decode make on the "
         "packetEncoder/packetDecoder for generated values (recorded, then interpreted by the model machines and, for 76 of 78 types, "
         "parsed against a hand-written schema per type) - not by static extraction of the 275 methods",
+        "the model's size/enc are pure functions of the value; that the real encode() is history-free (no state carried from one "
+        "call to the next, in particular after a refused encode: oversize under a lowered MaxRequestSize, string too long, invalid "
+        "timestamp inside nested length/CRC fields, refused flag) is tied by the `hist` stream only: sequences of 6-15 encodes of random "
+        "bodies with refused encodes interleaved, each valid encode compared with a clean sizing+writing pass and decoded",
         "time.Time/time.Duration fields are compared at the wire granularity (milliseconds; zero time = -1)",
         "the compression level is configuration, not wire data: values are compared and re-encoded at the default level"],
     trusted_base=[],
